@@ -12,3 +12,8 @@ func VerifHarness_C19_O7() { VerifHarness_C09_O1() }
 // supermajority of the deciding round's WHOLE validator set, not of the votes
 // that happened to be collected (same obligation as C01/O2a).
 func VerifHarness_C19_O8() { VerifHarness_C01_O2a() }
+
+// C19/O9 — call site: coin rounds use the same supermajority (a witness keeps
+// the seen majority only with at least that many concurring votes, otherwise it
+// flips its coin) — same obligation as C01/O2c.
+func VerifHarness_C19_O9() { VerifHarness_C01_O2c() }
